@@ -783,6 +783,36 @@ func checkD2(c *Ctx, pr *prioRoles) {
 			}
 		}
 	}
+	if pr.v1 && c.R.Property != "C15" { // (a list that misses a registered key is still a list of distinct configured priorities: not C15's business)
+		// a key newly stored in the input table also joins the list the scheduler visits: the function
+		// that stores the entry (from a parameter pair) appends the key, itself or through a callee
+		for _, fn := range p.Funcs() {
+			if rel, _ := p.Rel(fn); rel != "priority" {
+				continue
+			}
+			for _, b := range fn.Blocks {
+				for _, in := range b.Instrs {
+					mu, ok := in.(*ssa.MapUpdate)
+					if !ok || !isInputTableType(mu.Map.Type()) {
+						continue
+					}
+					if _, isPar := stripChangeType(mu.Key).(*ssa.Parameter); !isPar {
+						continue // rewriting an existing entry (marking it drained)
+					}
+					if v := p.Sym(mu.Value); v.Op == "struct" && len(v.Keys) > 0 && v.Keys[0] == "<base>" {
+						continue
+					}
+					appends := appenders[fn]
+					for g := range p.Reach(fn) {
+						if appenders[g] {
+							appends = true
+						}
+					}
+					c.R.Check(appends, "D2", p.FnKey(fn)+"#registered-appended", p.InstrPos(mu), "a newly registered key is appended to the registered list", "the function stores an input under a new key but never appends the key to the list of priorities the scheduler visits: the input is registered and never read")
+				}
+			}
+		}
+	}
 	if pr.v1 {
 		// roots: functions called from the scheduler loop / constructor that (transitively) append
 		for _, fn := range p.Funcs() {
